@@ -123,6 +123,19 @@ func HarnessEvents() {
 		db = zzMustOpen(path, c, "events/reopen-flipped")
 		zz.Reach("reopened-flipped")
 	}
+	if zz.Param("damagemeta", 0) == 1 {
+		// the newest meta page is torn (its checksum no longer matches) when the file is reopened: the
+		// other slot now holds the newest committed meta and must not be overwritten by the next commit
+		err := db.Update(func(tx *Tx) error { return tx.Bucket([]byte("b")).Put([]byte("k03"), []byte("x")) })
+		zz.Assert(err == nil, "events/commit-before-damage") // both metas now describe states holding the bucket
+		zz.Assert(db.Close() == nil, "events/close-before-damage")
+		im := zzDecode(zz.FileBytes(path), c.pageSize)
+		zz.Assert(im.cur >= 0 && im.meta[0].ok && im.meta[1].ok, "events/both-metas-valid-before-damage")
+		off := int64(im.cur)*int64(c.pageSize) + 16 + 56 + int64(zz.Choose(8))
+		zz.PokeFile(path, off, zz.PeekFile(path, off)^0x5a)
+		db = zzMustOpen(path, c, "events/reopen-with-torn-newest-meta")
+		zz.Reach("newest-meta-torn")
+	}
 	nev := zz.Param("events", 3)
 	maxR := zz.Param("readers", 2)
 	var readers []*zzReader
